@@ -438,7 +438,7 @@ fn check() {
     }
     let _ = std::fs::remove_dir_all(format!("{}/target/c16-scratch", VERIF_DIR));
     let ex = stats.executions.load(Ordering::Relaxed);
-    if ex < 300 || stats.distinct.len() < 5 {
+    if chk.violation_count() == 0 && (ex < 300 || stats.distinct.len() < 5) {
         machinery(format!("vacuous: executions={ex} distinct={}", stats.distinct.len()));
     }
     let coverage = json!({
